@@ -18,6 +18,7 @@ static void put_files() {
     g_vfs->put("/v/a.xsd", "<xs:schema xmlns:xs='http://www.w3.org/2001/XMLSchema' targetNamespace='urn:a' xmlns='urn:a' elementFormDefault='qualified'><xs:element name='r'><xs:complexType><xs:sequence><xs:element name='c' type='xs:int' maxOccurs='2'/></xs:sequence><xs:attribute name='d' type='xs:string' default='adv'/></xs:complexType></xs:element></xs:schema>");
     g_vfs->put("/v/b.xsd", "<xs:schema xmlns:xs='http://www.w3.org/2001/XMLSchema' targetNamespace='urn:b' xmlns='urn:b' elementFormDefault='qualified'><xs:element name='r'><xs:complexType><xs:sequence><xs:element name='c' type='xs:token' minOccurs='0'/></xs:sequence><xs:attribute name='k' type='xs:ID'/></xs:complexType></xs:element></xs:schema>");
     g_vfs->put("/v/x.ent", "<c/>xt");
+    g_vfs->put("/v/bad.dtd", "<!ELEMENT r ANY><!ATTLIST r q CDATA 'qv'><!ENTITY z 'zv'><!ELEMENT");
 }
 static void init_docs() {
     DOCS = {
@@ -28,6 +29,8 @@ static void init_docs() {
         {"malformed-start", "<"},
         {"malformed-middle", "<r><c i='x1'></r>"},
         {"malformed-end", "<r/>x"},
+        {"malformed-in-internal-subset", "<!DOCTYPE old [<!ELEMENT old (#PCDATA)>\n<!ATTLIST old stale CDATA 'left-over'><!-- c --><?p d?>\n<!BOGUS>]><old/>"},
+        {"malformed-in-external-subset", "<!DOCTYPE r SYSTEM 'bad.dtd' [<!ENTITY i 'iv'>]><r/>"},
         {"ext-dtd", "<!DOCTYPE r SYSTEM 'e.dtd'><r><c/>&e;</r>"},
         {"ext-dtd-2", "<!DOCTYPE r SYSTEM 'e.dtd'><r>&e;<c d='own' i='x1'/><c i='x1'/></r>"},
         {"schema-a-valid", "<r xmlns='urn:a' xmlns:xsi='http://www.w3.org/2001/XMLSchema-instance' xsi:schemaLocation='urn:a a.xsd'><c>1</c></r>"},
@@ -40,6 +43,7 @@ static void init_docs() {
         {"ns-bound", "<p:a xmlns:p='u1' xmlns='d'><p:b q='1'/><c/></p:a>"},
         {"ns-unbound", "<p:a><p:b/></p:a>"},
         {"undeclared-entity", "<r>&e;</r>"},
+        {"nel-without-declaration", "<a b='\xC2\x85'>\xC2\x85\xE2\x80\xA8</a>"},
     };
 }
 
@@ -63,11 +67,17 @@ template <class P, bool IsDom> struct BoxT : public Box {
     P p;
     Sax1H h;
     ParseSession sess;
+    int appliedScanner = IG;   // a new parser uses IGXMLScanner
     BoxT(XMLGrammarPool* pool = 0) : p(0, XMLPlatformUtils::fgMemoryManager, pool) {}
     void apply(ParseResult& r, int throwAt) {
         cfg.throwAt = throwAt;
         h.r = &r; h.cfg = &cfg; h.loc = nullptr;
-        config_common(p, cfg);
+        // NOTE: the scanner object is only replaced when the configured scanner name changes - re-installing it before every parse
+        // (as config_common does) would hand each parse a brand new scanner and hide exactly the state this check is about
+        if (appliedScanner != cfg.scanner) { p.useScanner(X16(ScnName[cfg.scanner]).p()); appliedScanner = cfg.scanner; }
+        p.setValidationScheme(cfg.val == 0 ? P::Val_Never : cfg.val == 1 ? P::Val_Always : P::Val_Auto);
+        p.setDoNamespaces(cfg.ns); p.setDoSchema(cfg.schema); p.setValidationSchemaFullChecking(cfg.fullcheck);
+        p.setExitOnFirstFatalError(cfg.exitFirstFatal); p.setLoadExternalDTD(cfg.loadExtDTD); p.setLoadSchema(cfg.loadSchema);
         p.setErrorHandler(&h);
         set_handlers();
     }
@@ -119,11 +129,12 @@ template <> bool BoxT<XercesDOMParser, true>::adopt() {
 struct BoxSax2 : public Box {
     SAX2XMLReaderImpl* p;
     Sax2H h;
+    int appliedScanner = IG;
     BoxSax2(XMLGrammarPool* pool = 0) { p = new SAX2XMLReaderImpl(XMLPlatformUtils::fgMemoryManager, pool); }
     ~BoxSax2() { delete p; }
     void apply(ParseResult& r, int throwAt) {
         cfg.throwAt = throwAt; h.r = &r; h.cfg = &cfg; h.nsmode = cfg.ns; h.inDTD = false; h.loc = nullptr;
-        p->setProperty(XMLUni::fgXercesScannerName, (void*)X16(ScnName[cfg.scanner]).p());
+        if (appliedScanner != cfg.scanner) { p->setProperty(XMLUni::fgXercesScannerName, (void*)X16(ScnName[cfg.scanner]).p()); appliedScanner = cfg.scanner; }
         p->setFeature(XMLUni::fgSAX2CoreNameSpaces, cfg.ns);
         p->setFeature(XMLUni::fgSAX2CoreNameSpacePrefixes, true);
         p->setFeature(XMLUni::fgSAX2CoreValidation, cfg.val != 0);
@@ -179,7 +190,7 @@ static std::string outcome(const ParseResult& r) {
 struct HOp { int kind; int a, b; std::string name; };  // kinds: 0 parse(d) 1 pull(d,steps) 2 throwing parse(d,k) 3 toggle feature a 4 resetDocPool 5 adopt 6 loadGrammar(no cache)
 static std::vector<HOp> OPS;
 static void init_ops(int ndocsForOps) {
-    static const int ORDER[] = {2, 5, 7, 10, 1, 12, 9, 13, 14, 16, 0, 3, 4, 6, 8, 11, 15, 17, 18};  // most state-polluting documents first
+    static const int ORDER[] = {2, 7, 5, 9, 12, 15, 1, 14, 11, 16, 18, 0, 3, 4, 6, 8, 10, 13, 17, 19, 20, 21};  // most state-polluting documents first
     for (int k = 0; k < (int)DOCS.size() && k < ndocsForOps; k++) {
         int d = ORDER[k];
         OPS.push_back({0, d, 0, "parse(" + DOCS[d].name + ")"});
@@ -267,7 +278,7 @@ static void run_hist(uint64_t idx, Ctx& c) {
 // grammar g, instance d (refers to g by system id / schemaLocation), a way to get g into the parser's cache, optional disturbance
 static const std::set<std::string> DROP_DECLS = {"DENT", "DT", "DTE", "ED", "AD", "IE", "XE", "NO", "UE", "DC", "L", "NS+", "NS-", "IW"};
 struct CCase { int api, way, disturb, doc; };
-static const int CACHE_DOCS[] = {7, 8, 9, 10, 11};  // ext-dtd, ext-dtd-2, schema-a-valid, schema-a-invalid, schema-b
+static const int CACHE_DOCS[] = {9, 10, 11, 12, 13};  // ext-dtd, ext-dtd-2, schema-a-valid, schema-a-invalid, schema-b
 static const char* WAYS[] = {"loadGrammar(cache)+useCached", "cacheFromParse on sibling doc+useCached", "loadGrammar(cache) without useCached", "load all three grammars+useCached"};
 static const char* DISTURB[] = {"none", "failed parse in between", "abandoned progressive parse in between", "resetCachedGrammarPool then reload"};
 static CCase cache_case(uint64_t idx) { CCase c; c.doc = (int)(idx % 5); idx /= 5; c.disturb = (int)(idx % 4); idx /= 4; c.way = (int)(idx % 4); idx /= 4; c.api = (int)idx; return c; }
@@ -281,20 +292,20 @@ static void run_cache(uint64_t idx, Ctx& c) {
     CCase cc = cache_case(idx);
     g_vfs->clear(); put_files();
     int d = CACHE_DOCS[cc.doc];
-    bool isSchema = d >= 9;
-    std::string gpath = d <= 8 ? "/v/e.dtd" : (d <= 10 ? "/v/a.xsd" : "/v/b.xsd");
+    bool isSchema = d >= 11;
+    std::string gpath = d <= 10 ? "/v/e.dtd" : (d <= 12 ? "/v/a.xsd" : "/v/b.xsd");
     Config cfg; cfg.ns = true; cfg.schema = true; cfg.val = 1; cfg.scanner = IG;
     std::unique_ptr<Box> fresh(make_box(cc.api)); fresh->cfg = cfg;
     ParseResult rf = fresh->parse(DOCS[d].bytes, 0);
     std::unique_ptr<Box> b(make_box(cc.api)); b->cfg = cfg;
     auto load = [&]() {
         if (cc.way == 0 || cc.way == 2) b->loadGrammar(gpath, isSchema, true);
-        else if (cc.way == 1) { b->cacheFromParse(true); int sib = d == 7 ? 8 : d == 8 ? 7 : d == 9 ? 10 : d == 10 ? 9 : 11; b->parse(DOCS[sib].bytes, 0); b->cacheFromParse(false); }
+        else if (cc.way == 1) { b->cacheFromParse(true); int sib = d == 9 ? 10 : d == 10 ? 9 : d == 11 ? 12 : d == 12 ? 11 : 13; b->parse(DOCS[sib].bytes, 0); b->cacheFromParse(false); }
         else { b->loadGrammar("/v/e.dtd", false, true); b->loadGrammar("/v/a.xsd", true, true); b->loadGrammar("/v/b.xsd", true, true); }
     };
     load();
     if (cc.way != 2) b->useCached(true);
-    if (cc.disturb == 1) b->parse(DOCS[5].bytes, 0);
+    if (cc.disturb == 1) b->parse(DOCS[5].bytes, 0);   // malformed-middle
     if (cc.disturb == 2) b->pull(DOCS[d].bytes, 1);
     if (cc.disturb == 3) { b->resetGrammarPool(); load(); }
     // the cached grammar must be used: remove the grammar file so that a re-fetch would fail visibly (schema) / change the result
@@ -322,12 +333,12 @@ static void run_cache(uint64_t idx, Ctx& c) {
         {
             std::unique_ptr<Box> u(make_box(cc.api, &pool)); u->cfg = cfg;
             u->cacheFromParse(true);
-            u->parse(DOCS[11].bytes, 0);   // would cache urn:b
-            u->parse(DOCS[7].bytes, 0);    // would cache the DTD
+            u->parse(DOCS[13].bytes, 0);   // would cache urn:b
+            u->parse(DOCS[9].bytes, 0);    // would cache the DTD
             u->loadGrammar("/v/b.xsd", true, true);
             u->useCached(true);
-            ParseResult r2 = u->parse(DOCS[9].bytes, 0);
-            if (cache_view(r2) != cache_view(fresh->parse(DOCS[9].bytes, 0))) c.violation("locked-pool-parse-differs", "\"api\":" + jstr(BoxName[cc.api]));
+            ParseResult r2 = u->parse(DOCS[11].bytes, 0);
+            if (cache_view(r2) != cache_view(fresh->parse(DOCS[11].bytes, 0))) c.violation("locked-pool-parse-differs", "\"api\":" + jstr(BoxName[cc.api]));
         }
         std::string after = keys();
         c.count("locked_pool_checks");
@@ -342,6 +353,7 @@ int main(int argc, char** argv) {
     std::string space = a.str("space", "hist");
     g_depth = (int)a.num("depth", 2);
     xml_init();
+    g_dump_internal_subset = true;
     init_docs(); init_ops((int)a.num("opdocs", 100)); init_bases();
     Runner R; R.name = space;
     if (space == "hist") {
